@@ -410,7 +410,7 @@ def source_tie(chk, cases, outs, model_ok):
     semantics + ext16 against CPython's recorded traces; independent of whether the tie lemmas still compile.
     Only runs the model reproduces are used (a run the model misses is reported by the correspondence itself)."""
     idx = [i for i, ok in enumerate(model_ok) if ok and "error" not in outs[i]]
-    cap = 1200 if chk.tier == "thorough" else 500
+    cap = 4000 if chk.tier == "thorough" else 1500
     if len(idx) > cap:       # deterministic slice: every k-th run, all streams and both modes stay represented
         step = len(idx) / float(cap)
         idx = sorted(set(idx[int(j * step)] for j in range(cap)))
